@@ -151,6 +151,8 @@ class TRef(T):
         return SRef(self.cls, t)
 
     def unwrap(self, cx, v):
+        if isinstance(v, SMaybe):
+            v = v.force(cx, "TypeError")
         if isinstance(v, SRef):
             return v.t
         raise Unsupported(f"expected object of {self.cls}, got {v!r}")
